@@ -107,12 +107,9 @@ def block_header(cs, us, filters, extra_pad=0, flags_or=0, pad_byte=0, nfilters_
         body += vli_enc(us)
     for fid, props in filters:
         body += filter_flags(fid, props)
-    while (len(body) + 4) % 4 or extra_pad > 0:
+    while (len(body) + 4) % 4:
         body.append(pad_byte)
-        if (len(body) + 4) % 4 == 0:
-            if extra_pad <= 0:
-                break
-            extra_pad -= 1
+    body += bytes([pad_byte]) * (4 * extra_pad)
     body[0] = ((len(body) + 4) // 4 - 1) & 0xFF if size_byte is None else size_byte
     body[1] = flags | flags_or
     return bytes(body) + (le32(crc32(bytes(body))) if fix_crc else b"\0\0\0\0")
